@@ -130,3 +130,14 @@ def exchange_trace(pid, tier, seed, w, v, lay, tp):
     validated, ts = validate_trace(v, "Trace_Exchange.tla", "Trace_Exchange.cfg", tf, splitter="Call", max_rounds=8, redo=redo)
     ts = dict(ts, cfg="Trace_Exchange.cfg", events=r.get("extra", {}).get("events"))
     return r, validated, ts
+
+
+def quake_text(pid, tier, w, v):
+    quick = tier != "thorough"
+    mc = [tlc_mc("MC_QuakeText.tla", "MC_QuakeText.cfg", workers=4, name=pid.lower() + "_qtmc")]
+    f = f"{w}/quaketext.ndjson"
+    mc.append(tlc_gen("MC_QuakeText.tla", "Gen_QuakeText.cfg" if quick else "Gen_QuakeText_t.cfg", "CASE", f, name=pid.lower() + "_qtgen",
+                      timeout=1800))
+    r = vh(["quaketext", "--in", f], name=pid.lower() + "qt")
+    v.add_report(r, "quake text lines")
+    return [r], mc
